@@ -405,10 +405,14 @@ def parse_save(text):
     for mm in re.finditer(r"typeid\(([\w:<>]+)\)", rest):
         types.append(mm.group(1))
     vec = bool(re.search(r"std::vector<", rest))
-    prec = re.findall(r"setprecision\(([^)]*)\)|max_digits10", body)
+    # full precision = the stream precision is raised to max_digits10 of double (17 significant digits: enough to read
+    # every double back exactly; digits10 = 15 is NOT) before anything is written, and never lowered again
+    pm = re.findall(r"setprecision\(\s*((?:[^()]|\([^()]*\))*)\)", body)
+    prec = bool(pm) and all(re.sub(r"\s", "", a) in ("std::numeric_limits<double>::max_digits10",
+                                                     "std::numeric_limits<longdouble>::max_digits10") for a in pm)
     comment_config = bool(re.search(r'it->first\s*==\s*"config"\)\s*\{\s*ofs\s*<<\s*\'#\'', rest))
     string_fallback = "as<std::string>" in rest
-    return dict(skip=skip, specials=specials, types=types, vector=vec, precision=bool(prec),
+    return dict(skip=skip, specials=specials, types=types, vector=vec, precision=prec,
                 comment_config=comment_config, string_fallback=string_fallback)
 
 
